@@ -6,7 +6,7 @@ import time
 from fractions import Fraction
 import z3
 
-from .values import (SVal, VecVal, PtrVal, RefVal, Opaque, FuncRef, Path, Shapes, Unsupported, fresh,
+from .values import (TupleVal, SVal, VecVal, PtrVal, RefVal, Opaque, FuncRef, Path, Shapes, Unsupported, fresh,
                      default_value, const_lifted, select, store, ite, tree_eq, vec_eq, tmap, leaves)
 from . import spec as S
 
@@ -80,6 +80,62 @@ def _has_quant(e):
         stack.extend(x.children())
     _hq_cache[k] = r
     return r
+
+
+def _has_call(n):
+    if not isinstance(n, dict):
+        return False
+    if n.get('kind') in ('CallExpr', 'CXXMemberCallExpr', 'CXXOperatorCallExpr', 'CXXConstructExpr',
+                         'CXXTemporaryObjectExpr', 'InitListExpr'):
+        return True
+    return any(_has_call(c) for c in n.get('inner', ()))
+
+
+def as_int(v):
+    """integer expression equal to the real expression v when v is integral by construction
+    (ToReal of an integer, closed under +, -, unary -, * and if-then-else); None otherwise"""
+    if not z3.is_expr(v):
+        return None
+    if z3.is_int(v):
+        return v
+    if z3.is_rational_value(v):
+        if v.denominator_as_long() == 1:
+            return z3.IntVal(v.numerator_as_long())
+        return None
+    k = v.decl().kind()
+    ch = v.children()
+    if k == z3.Z3_OP_TO_REAL:
+        return ch[0]
+    if k in (z3.Z3_OP_ADD, z3.Z3_OP_SUB, z3.Z3_OP_MUL):
+        xs = [as_int(c) for c in ch]
+        if any(x is None for x in xs):
+            return None
+        r = xs[0]
+        for x in xs[1:]:
+            r = {z3.Z3_OP_ADD: lambda a, b: a + b, z3.Z3_OP_SUB: lambda a, b: a - b, z3.Z3_OP_MUL: lambda a, b: a * b}[k](r, x)
+        return r
+    if k == z3.Z3_OP_UMINUS:
+        x = as_int(ch[0])
+        return None if x is None else -x
+    if k == z3.Z3_OP_ITE:
+        a, b = as_int(ch[1]), as_int(ch[2])
+        if a is None or b is None:
+            return None
+        c = ch[0]
+        # conditions comparing ToReal(x) with ToReal(y) are rewritten over the integers
+        return z3.If(int_cond(c), a, b)
+    return None
+
+
+def int_cond(c):
+    k = c.decl().kind()
+    ch = c.children()
+    if k in (z3.Z3_OP_LE, z3.Z3_OP_GE, z3.Z3_OP_LT, z3.Z3_OP_GT, z3.Z3_OP_EQ) and len(ch) == 2:
+        a, b = as_int(ch[0]), as_int(ch[1])
+        if a is not None and b is not None and (z3.is_real(ch[0]) or z3.is_real(ch[1])):
+            return {z3.Z3_OP_LE: a <= b, z3.Z3_OP_GE: a >= b, z3.Z3_OP_LT: a < b, z3.Z3_OP_GT: a > b,
+                    z3.Z3_OP_EQ: a == b}[k]
+    return c
 
 
 def int_range(bits, signed):
@@ -179,6 +235,11 @@ class Exec:
         if isinstance(cond, bool):
             if not cond:
                 raise PathEnd()
+            return
+        # conjunctions are split so that quantifier-free conjuncts stay usable in the quantifier-free stage
+        if z3.is_and(cond):
+            for ch in cond.children():
+                self.assume(ch)
             return
         self.hyps.append(cond)
 
@@ -287,7 +348,7 @@ class Exec:
                 props = self.contract.serves if self.contract else ()
             self.obligations.append(Obligation(name, kind, label, tuple(props), st, model, secs, line,
                                                self.fname, detail))
-        self.hyps.append(goal)
+        self.assume(goal)
 
     def minimise(self, s):
         """prefer counterexamples with small magnitudes (replays allocate arrays of a few elements)"""
@@ -813,7 +874,8 @@ class Exec:
             return z3.ToReal(v)
         if ck == 'FloatingToIntegral':
             v = self.ev(sub)
-            t = z3.If(v >= 0, z3.ToInt(v), -z3.ToInt(-v))
+            iv = as_int(v)
+            t = iv if iv is not None else z3.If(v >= 0, z3.ToInt(v), -z3.ToInt(-v))
             dsh = self.ctype(n)
             lo, hi = int_range(dsh[1], dsh[2])
             self.oblige('overflow', 'float2int', z3.And(t >= lo, t <= hi), n)
@@ -905,6 +967,10 @@ class Exec:
                 x = z3.If(x, 1, 0)
             if z3.is_bool(y) and not z3.is_bool(x):
                 y = z3.If(y, 1, 0)
+            if z3.is_expr(x) and z3.is_expr(y) and z3.is_real(x) and z3.is_real(y):
+                xi, yi = as_int(x), as_int(y)
+                if xi is not None and yi is not None:
+                    x, y = xi, yi      # both sides integral by construction: compare over the integers
             return {'<': x < y, '<=': x <= y, '>': x > y, '>=': x >= y, '==': x == y, '!=': x != y}[op]
         if z3.is_bool(x):
             x = z3.If(x, 1, 0)
@@ -1037,6 +1103,11 @@ class Exec:
             return self.ev(a)
         if z3.is_false(cs):
             return self.ev(b)
+        if _has_call(a) or _has_call(b):
+            # arms with calls / constructions are explored as separate paths
+            if self.decide(cv):
+                return self.ev(a)
+            return self.ev(b)
         ver = self.version
         self.guards.append(cv)
         try:
@@ -1072,9 +1143,11 @@ class Exec:
         sh = self.ctype(n)
         elems = [self.ev(c) for c in n.get('inner', ()) if c.get('kind') != 'ImplicitValueInitExpr' or True]
         t0 = n['type'].get('desugaredQualType') or n['type']['qualType']
+        if elems and all(isinstance(e, PtrVal) for e in elems) and (sh[0] == 'vec' or t0.endswith(']')):
+            return TupleVal(elems)
         if t0.endswith(']') and sh[0] == 'opaque':
             return self.vec_of(elems, self.shapes.of(t0[:t0.rindex('[')]))
-        if sh[0] == 'vec' and len(elems) == 1 and isinstance(elems[0], VecVal):
+        if sh[0] == 'vec' and len(elems) == 1 and isinstance(elems[0], (VecVal, TupleVal)):
             return elems[0]
         if sh[0] == 'struct':
             f = {}
@@ -1174,7 +1247,20 @@ class Exec:
         sh = self.tshape(d)
         inits = [c for c in d.get('inner', ()) if c.get('kind') not in ('TemplateArgument',) and 'Attr' not in c.get('kind', '')]
         if d.get('storageClass') == 'static' or d.get('tls'):
-            raise Unsupported('static local %s' % d.get('name'))
+            qt = d.get('type', {}).get('qualType', '')
+            if not (qt.startswith('const ') or d.get('constexpr')):
+                # mutable static / thread_local local: hidden state that outlives the call. The contracts describe
+                # results as functions of the arguments and the object only, so this is a frame violation.
+                self.oblige('frame', 'no-hidden-static-state:' + d.get('name', '?'), z3.BoolVal(False), d,
+                            detail='mutable static/thread_local local variable')
+                if sh[0] in ('int', 'real', 'bool'):
+                    self.store[d['id']] = fresh(sh, self.fresh_name('static_' + d.get('name', '')))
+                else:
+                    self.store[d['id']] = fresh(sh, self.fresh_name('static_' + d.get('name', '')))
+                    self.calls.type_inv(self, self.store[d['id']], sh)
+                self.names[d['name']] = Path(d['id'])
+                self.var_shapes[d['id']] = sh
+                return
         if sh[0] == 'ref':
             if not inits:
                 raise Unsupported('reference without init')
@@ -1201,6 +1287,11 @@ class Exec:
         self.version += 1
 
     def coerce(self, v, sh):
+        if z3.is_expr(v) and sh[0] == 'struct' and sh[1] == 'dsplib::cmplx_t':
+            # implicit cmplx_t(const T& v): re = v, im = 0 (verified as cmplx_t::cmplx_t<T>)
+            if z3.is_bool(v):
+                v = z3.If(v, 1, 0)
+            return SVal('dsplib::cmplx_t', {'re': z3.ToReal(v) if z3.is_int(v) else v, 'im': z3.RealVal(0)})
         if z3.is_expr(v):
             if sh[0] == 'real' and z3.is_int(v):
                 return z3.ToReal(v)
